@@ -1025,6 +1025,22 @@ def D_capacity(s, ctx):
     return None
 
 
+def D_cache_size(s, ctx):
+    """SizedCache::with_size(n): n >= 1 on every path to the call (dominating comparisons, through +- constants)."""
+    if s.kind != "call:cache_with_size":
+        return None
+    arg = s.call.args[0]
+    if arg.get("k") == "const":
+        return "constant size %s" % arg.get("int") if arg.get("int", 0) >= 1 else None
+    l = op_local(arg)
+    if l is None:
+        return None
+    iv = _interval(s.body, l, s.bb)
+    if iv and iv[0] >= 1:
+        return "the size is in [%d, %d] on every path to the call (dominating comparisons), never 0" % iv
+    return None
+
+
 FMT_DENY = ("chrono::format::DelayedFormat",)
 
 
@@ -1079,7 +1095,7 @@ def D_div_zero_guard(s, ctx):
 
 DISCHARGERS = [D_ubcheck, D_counter, D_param_counter, D_depth, D_interval, D_len_plus, D_find_plus, D_sub_guard, D_sub_nonempty, D_countdown,
                D_caller_nonzero, D_byte_domain, D_constant, D_index_find, D_unwrap_some, D_borrow, D_const_index,
-               D_capacity, D_fmt, D_div_zero_guard]
+               D_capacity, D_cache_size, D_fmt, D_div_zero_guard]
 
 
 def census(rep, ctx, rid="C05-PANIC-CENSUS", crates=("lib", "bin")):
